@@ -659,3 +659,14 @@ func raceSite(tail string) string {
 	}
 	return "?"
 }
+
+// NewCtxForReplay returns a context usable outside a worker (Replay functions
+// that share code with Run).
+func NewCtxForReplay() *Ctx {
+	c := &Ctx{Tier: "quick", Workers: 1, Verif: "/verif", Work: os.TempDir(), distinct: map[uint64]struct{}{}, outcomes: map[uint64]struct{}{}}
+	c.out.Counters = map[string]int64{}
+	c.out.Violations = map[string]*Violation{}
+	c.out.Extra = map[string]any{}
+	c.out.Exhaustive = true
+	return c
+}
